@@ -3,6 +3,7 @@ import os
 import re
 
 from vlib import harness as H
+from vlib import deepchain as DC
 from vlib import texgen as G
 from vlib import oracles as O
 from vlib import docrun as D
@@ -41,7 +42,18 @@ def plan(ctx):
         prof = PROFILES[i % len(PROFILES)]
         n = ctx.pick(250, 6000) if prof == 'deep' else ctx.pick(700, 25000)
         shards.append(('doc', prof, n, i))
-    return [('shard_corpus', [('corpus',)]), ('shard_docs', shards)]
+    shards.append(('doc', 'flat', ctx.pick(25, 600), 16))
+    shards.append(('doc', 'wide', ctx.pick(150, 3000), 17))
+    return [('shard_corpus', [('corpus',)]), ('shard_docs', shards),
+            ('shard_deep', [('deep', i, 8) for i in range(8)])]
+
+
+DEEP_PARTS = ('parse', 'roundtrip', 'positions', 'search')
+
+
+def shard_deep(ctx, shard):
+    # chains nested as deeply as the pinned tree can handle (vlib/deepchain.py); closed-form oracle
+    return DC.shard('C01', DEEP_PARTS, shard[1], shard[2], H.Result())
 
 
 def shard_docs(ctx, shard):
@@ -130,6 +142,8 @@ def shard_corpus(ctx, shard):
 
 
 def replay(case):
+    if case.get('sub') == 'deep-chain':
+        return DC.replay('C01', DEEP_PARTS, case)
     if case.get('sub') == 'corpus':
         check_corpus_entry(case.get('origin', 'replay'), case['src'])
         return
